@@ -52,11 +52,14 @@ def run_one(sc):
 
     arrive_at = {}
 
+    notify = [lambda: None]
+
     class Sink:
         def put(self, pkt):
             i = pkt.packet_id
             st = pkt.perhop_time.get(elid, -1) if isinstance(pkt.perhop_time, dict) else -1
             rec.ev.append(dict(base, e="D", t=ex(env.now), id=i, sz=pkt.size, stamp=ex(st), **state()))
+            notify[0]()
 
     port.out = Sink()
 
@@ -87,7 +90,7 @@ def run_one(sc):
         pm[0] = PortMonitor(env, port, dist, pkt_in_service_included=bool(incl))
         env.process(pm[0].run())
 
-    netlib.injector(env, rec, sc["arr"], make_packet, port, on_arrival)
+    notify[0] = netlib.injector(env, rec, sc["arr"], make_packet, port, on_arrival)
     ok = netlib.run_env(env, rec)
     for e in rec.ev:
         if e["e"] == "X":
